@@ -2,6 +2,7 @@
   Lemmas/FloatErrSqrt.lean — the rounding-error layer for **`sqrt`** of Lean ≥ 4.33's logical floats.
 -/
 import RosuModel.Lemmas.FloatErrMul
+import RosuModel.Lemmas.FloatBitsLaws
 namespace Rosu.FErr
 open Float.Model Float.Model.UnpackedFloat Rosu.FMR Rosu.FRM Rosu.FAM
 
@@ -214,5 +215,109 @@ theorem sqrt_err_unpacked (spec : Format) (m : Nat) (e : Int) (hm : 0 < m) :
     · right
       have : ((2 : ℚ) ^ (spec.mantissaBits - 1)) ≤ (q : ℚ) := by exact_mod_cast h
       exact mul_le_mul_of_nonneg_right this (two_zpow_pos _).le
+
+/-! ### `Float` (binary64) -/
+
+/-- **double `sqrt` is correctly rounded** (in squares): for a finite `x ≥ 0` (`−0` included) with finite `sqrt x`,
+`r = toRat (sqrt x) ≥ 0` and there is `h` — half an ulp of `r`, `0 ≤ h ≤ 2⁻⁵³ · r` — with
+`(r − h)² ≤ toRat x ≤ (r + h)²`, i.e. `r − h ≤ √x ≤ r + h`. The result of `sqrt` is never subnormal. -/
+theorem sqrt_half_ulp_float (x : Float) (hx : x.isFinite = true) (h0 : Scalar.le (0 : Float) x = true)
+    (hr : (Scalar.sqrt x : Float).isFinite = true) :
+    0 ≤ toRat (Scalar.sqrt x : Float) ∧
+    ∃ h : ℚ, 0 ≤ h ∧ h ≤ (2 : ℚ) ^ (-53 : Int) * toRat (Scalar.sqrt x : Float) ∧
+      (toRat (Scalar.sqrt x : Float) - h) ^ 2 ≤ toRat x ∧ toRat x ≤ (toRat (Scalar.sqrt x : Float) + h) ^ 2 := by
+  have hx' : x.toModel.unpack.isFinite = true := hx
+  have hr' : (Scalar.sqrt x : Float).toModel.unpack.isFinite = true := hr
+  have hcx := float_canon x
+  rw [FB.le_zero_float] at h0
+  unfold toRat
+  rw [FB.float_sqrt_unpack] at hr' ⊢
+  generalize x.toModel.unpack = u at *
+  rcases FMR.nonneg_cases u h0 with ⟨s, rfl⟩ | ⟨m, e, hm, rfl⟩ | rfl
+  · have : UnpackedFloat.sqrt Format.binary64 (.zero s) = .zero s := rfl
+    rw [this]
+    unfold FMR.repack
+    rw [FM.unpack_pack_zero (by decide)]
+    refine ⟨le_refl _, 0, le_refl _, by simp [uval], by simp [uval], by simp [uval]⟩
+  · obtain ⟨r, tg, htg, hv, hr0, hc, _, hU, hL, hn⟩ := sqrt_err_unpacked Format.binary64 m e hm
+    have hrep : FMR.repack Format.binary64 (UnpackedFloat.sqrt Format.binary64 (.finite .positive m e hm)) =
+        UnpackedFloat.sqrt Format.binary64 (.finite .positive m e hm) := by
+      rcases repack_cases Format.binary64 (by decide) _ hc with ⟨h1, _⟩ | ⟨s', m', e', p, _, _, h1⟩
+      · exact h1
+      · rw [h1] at hr'; cases hr'
+    rw [hrep, hv]
+    have hxv : uval (.finite .positive m e hm) = (m : ℚ) * (2 : ℚ) ^ e := by simp [uval, sgnQ]
+    rw [hxv]
+    refine ⟨hr0, (2 : ℚ) ^ tg / 2, (div_pos (two_zpow_pos _) (by norm_num)).le, ?_⟩
+    rw [b64_mantissaBits, b64_minExponent] at *
+    -- the result is never subnormal
+    have hnorm : (2 : ℚ) ^ (53 - 1) * (2 : ℚ) ^ tg ≤ r := by
+      rcases hn with h | h
+      · subst h
+        by_contra hc'
+        rw [not_le] at hc'
+        have hxge : (2 : ℚ) ^ (-1074 : Int) ≤ (m : ℚ) * (2 : ℚ) ^ e := by
+          have h1 : (1 : ℚ) ≤ (m : ℚ) := by exact_mod_cast hm
+          have h2 : (2 : ℚ) ^ (-1074 : Int) ≤ (2 : ℚ) ^ e :=
+            zpow_le_zpow_right₀ (by norm_num) (CanonFin.ge hcx)
+          calc (2 : ℚ) ^ (-1074 : Int) ≤ 1 * (2 : ℚ) ^ e := by rw [one_mul]; exact h2
+            _ ≤ _ := mul_le_mul_of_nonneg_right h1 (two_zpow_pos _).le
+        have ha := two_zpow_pos (-537)
+        have e1 : (2 : ℚ) ^ (-1074 : Int) = ((2 : ℚ) ^ (-537 : Int)) ^ 2 := by
+          rw [← zpow_natCast, ← zpow_mul]; norm_num
+        have e2 : (2 : ℚ) ^ (53 - 1) * (2 : ℚ) ^ (-1074 : Int) ≤ (2 : ℚ) ^ (-537 : Int) / 2 := by
+          have a1 : (2 : ℚ) ^ (53 - 1) * (2 : ℚ) ^ (-1074 : Int) = (2 : ℚ) ^ (-1022 : Int) := by
+            rw [← zpow_natCast, ← zpow_add₀ (two_ne_zero)]; norm_num
+          have a2 : (2 : ℚ) ^ (-537 : Int) / 2 = (2 : ℚ) ^ (-538 : Int) := by
+            rw [show (-538 : Int) = -537 - 1 by norm_num, zpow_sub_one₀ (two_ne_zero)]; ring
+          rw [a1, a2]
+          exact zpow_le_zpow_right₀ (by norm_num) (by norm_num)
+        have e3 : (2 : ℚ) ^ (-1074 : Int) / 2 ≤ (2 : ℚ) ^ (-537 : Int) / 2 :=
+          div_le_div_of_nonneg_right (zpow_le_zpow_right₀ (by norm_num) (by norm_num)) (by norm_num)
+        have hlt : r + (2 : ℚ) ^ (-1074 : Int) / 2 < (2 : ℚ) ^ (-537 : Int) :=
+          calc r + (2 : ℚ) ^ (-1074 : Int) / 2
+              < (2 : ℚ) ^ (53 - 1) * (2 : ℚ) ^ (-1074 : Int) + (2 : ℚ) ^ (-1074 : Int) / 2 := add_lt_add_left hc' _
+            _ ≤ (2 : ℚ) ^ (-537 : Int) / 2 + (2 : ℚ) ^ (-537 : Int) / 2 := add_le_add e2 e3
+            _ = (2 : ℚ) ^ (-537 : Int) := by ring
+        have hsq : (r + (2 : ℚ) ^ (-1074 : Int) / 2) ^ 2 < ((2 : ℚ) ^ (-537 : Int)) ^ 2 :=
+          pow_lt_pow_left₀ hlt (add_nonneg hr0 (div_pos (two_zpow_pos _) (by norm_num)).le) (by norm_num)
+        rw [← e1] at hsq
+        linarith
+      · exact h
+    have hh : (2 : ℚ) ^ tg / 2 ≤ (2 : ℚ) ^ (-53 : Int) * r := by
+      have : (2 : ℚ) ^ tg / 2 = (2 : ℚ) ^ (-53 : Int) * ((2 : ℚ) ^ (53 - 1) * (2 : ℚ) ^ tg) := by
+        rw [← mul_assoc, ← zpow_natCast, ← zpow_add₀ (two_ne_zero)]
+        norm_num
+        ring
+      rw [this]
+      exact mul_le_mul_of_nonneg_left hnorm (two_zpow_pos _).le
+    have hle : (2 : ℚ) ^ tg / 2 ≤ r := by
+      have : (2 : ℚ) ^ (-53 : Int) * r ≤ 1 * r := mul_le_mul_of_nonneg_right (by norm_num) hr0
+      linarith
+    exact ⟨hh, hL hle, hU⟩
+  · cases hx'
+
+/-- **the usable algebraic form of the error of `sqrt`**: with `r = toRat (sqrt x)`,
+`r² (1 − 2⁻⁵²) ≤ toRat x ≤ r² (1 + 2⁻⁵³)²` (`(1 + 2⁻⁵³)² = 1 + 2⁻⁵² + 2⁻¹⁰⁶`), and `r ≥ 0`. -/
+theorem sqrt_sq_err_float (x : Float) (hx : x.isFinite = true) (h0 : Scalar.le (0 : Float) x = true)
+    (hr : (Scalar.sqrt x : Float).isFinite = true) :
+    0 ≤ toRat (Scalar.sqrt x : Float) ∧
+    toRat (Scalar.sqrt x : Float) ^ 2 * (1 - (2 : ℚ) ^ (-52 : Int)) ≤ toRat x ∧
+    toRat x ≤ toRat (Scalar.sqrt x : Float) ^ 2 * (1 + (2 : ℚ) ^ (-53 : Int)) ^ 2 := by
+  obtain ⟨hr0, h, hh0, hh, hL, hU⟩ := sqrt_half_ulp_float x hx h0 hr
+  generalize toRat (Scalar.sqrt x : Float) = r at *
+  have hu : (2 : ℚ) ^ (-53 : Int) ≤ 1 := by norm_num
+  refine ⟨hr0, ?_, ?_⟩
+  · have h1 : (r - (2 : ℚ) ^ (-53 : Int) * r) ^ 2 ≤ (r - h) ^ 2 :=
+      pow_le_pow_left₀ (by nlinarith) (by linarith) 2
+    have h2 : r ^ 2 * (1 - (2 : ℚ) ^ (-52 : Int)) ≤ (r - (2 : ℚ) ^ (-53 : Int) * r) ^ 2 := by
+      have : (r - (2 : ℚ) ^ (-53 : Int) * r) ^ 2 = r ^ 2 * (1 - (2 : ℚ) ^ (-53 : Int)) ^ 2 := by ring
+      rw [this]
+      exact mul_le_mul_of_nonneg_left (by norm_num) (sq_nonneg r)
+    linarith
+  · have h1 : (r + h) ^ 2 ≤ (r + (2 : ℚ) ^ (-53 : Int) * r) ^ 2 :=
+      pow_le_pow_left₀ (by linarith) (by linarith) 2
+    have : (r + (2 : ℚ) ^ (-53 : Int) * r) ^ 2 = r ^ 2 * (1 + (2 : ℚ) ^ (-53 : Int)) ^ 2 := by ring
+    linarith
 
 end Rosu.FErr
